@@ -9,6 +9,7 @@ pub mod hostile_gen;
 pub mod hostile_mut;
 pub mod hostile_tcp;
 pub mod hostile_turn;
+pub mod hostile_udptl;
 pub mod icestun;
 pub mod latch;
 pub mod pc_close;
@@ -38,6 +39,7 @@ pub async fn dispatch(ctx: &Ctx) {
         "hostile" => hostile::run(ctx).await,
         "hostile_tcp" => hostile_tcp::run(ctx).await,
         "hostile_turn" => hostile_turn::run(ctx).await,
+        "hostile_udptl" => hostile_udptl::run(ctx).await,
         other => ctx.violate("HARNESS.scenario", format!("unknown scenario {other}")),
     }
 }
@@ -80,7 +82,7 @@ pub fn budget(prop: &str, tier: Tier) -> u64 {
         ("C10", t) => pc_connect::budget(prop, t),
         ("C17", t) => pc_close::budget(prop, t),
         ("C14", t) => srtpgate::budget(prop, t) + srtpgate_pc::budget(prop, t),
-        ("C07", t) => hostile::budget(prop, t) + hostile_tcp::budget(prop, t) + hostile_turn::budget(prop, t),
+        ("C07", t) => hostile::budget(prop, t) + hostile_tcp::budget(prop, t) + hostile_turn::budget(prop, t) + hostile_udptl::budget(prop, t),
         ("C01", Tier::Quick) => 40_000,
         ("C01", Tier::Thorough) => 600_000,
         ("C12", Tier::Quick) => 6000,
@@ -107,21 +109,24 @@ fn c14_generate(prop: &str, seed: u64, idx: u64, tier: Tier) -> Plan {
     }
 }
 
-/// C07 is decided by three scenarios that share one index space (same layout as C14 / C02): within every block of
-/// `hostile::budget + hostile_tcp::budget + hostile_turn::budget` indices the first `hostile::budget` belong to
-/// `hostile` (block 0 = its enumerated core + swarm, unchanged), the following `hostile_tcp::budget` to `hostile_tcp`
-/// (hostile bytes on ICE-TCP streams; its first 120 indices enumerate shape x phase x end x listener kind) and the last
-/// `hostile_turn::budget` to `hostile_turn` (a hostile TURN server over UDP / TCP; its first 88 indices enumerate
-/// shape x stage x transport).
+/// C07 is decided by four scenarios that share one index space (same layout as C14 / C02): within every block of
+/// `hostile::budget + hostile_tcp::budget + hostile_turn::budget + hostile_udptl::budget` indices the first
+/// `hostile::budget` belong to `hostile` (block 0 = its enumerated core + swarm, unchanged), the following
+/// `hostile_tcp::budget` to `hostile_tcp` (hostile bytes on ICE-TCP streams; its first 120 indices enumerate shape x
+/// phase x end x listener kind), then `hostile_turn::budget` to `hostile_turn` (a hostile TURN server over UDP / TCP; its
+/// first 96 indices enumerate shape x stage x transport) and the last `hostile_udptl::budget` to `hostile_udptl`
+/// (hostile datagrams at a UDPTL endpoint; its first 20 indices enumerate shape x source).
 fn c07_generate(prop: &str, seed: u64, idx: u64, tier: Tier) -> Plan {
-    let (a, b, c) = (hostile::budget(prop, tier), hostile_tcp::budget(prop, tier), hostile_turn::budget(prop, tier));
-    let (block, off) = (idx / (a + b + c), idx % (a + b + c));
+    let (a, b, c, d) = (hostile::budget(prop, tier), hostile_tcp::budget(prop, tier), hostile_turn::budget(prop, tier), hostile_udptl::budget(prop, tier));
+    let (block, off) = (idx / (a + b + c + d), idx % (a + b + c + d));
     if off < a {
         hostile::generate(prop, seed, block * a + off, tier)
     } else if off < a + b {
         hostile_tcp::generate(prop, seed, block * b + (off - a), tier)
-    } else {
+    } else if off < a + b + c {
         hostile_turn::generate(prop, seed, block * c + (off - a - b), tier)
+    } else {
+        hostile_udptl::generate(prop, seed, block * d + (off - a - b - c), tier)
     }
 }
 
